@@ -19,13 +19,28 @@ def filter (req : Json) : R Reply := do
              slantNonzero := ← asBool (← field o "slantNonzero"), tanSlant := ← asRat (← field o "tanSlant"),
              originHeight := ← asRat (← field o "originHeight") }
   let m ← (if fname == "transformations" then tMatrix <$> topts else pure Affine.id)
+  -- `_bounds` of the components of mark-ligature composites: the model's own rule for line outlines (`lineBounds`);
+  -- the pen's value measured by the harness only where the outline has curve segments
+  let tableJ := (i.getObjVal? "bounds").toOption.getD (Json.arr #[])
+  let table ← asList (fun j => do
+      let l ← asArr j
+      match l with
+      | [k, b] => do
+        let k ← asComp k
+        let b ← asOpt (asPair asRat asRat) b
+        return (k, b)
+      | _ => throw "bounds entry") tableJ
+  let bnd : Comp → Option (Q × Q) := fun k =>
+    match lineBounds gs k with
+    | some r => r
+    | none => (table.find? (fun e => e.1 == k)).bind (·.2)
   let res : Except GErr FState :=
     match fname with
     | "decompose" => runFilter decomposeStep incl gs
     | "decomposeTransformed" => runFilter decomposeTransformedStep incl gs
     | "flatten" => runFilter flattenStep incl gs
     | "transformations" => runFilter (transformStep m incl) incl gs
-    | "propagateAnchors" => runFilter (propagateStep marks) incl gs
+    | "propagateAnchors" => runFilter (propagateStep bnd marks) incl gs
     | _ => .error .assertion
   let obs ← field req "obs"
   let oerr ← asOpt asStr (← field obs "err")
@@ -33,7 +48,11 @@ def filter (req : Json) : R Reply := do
   | .error e => return { model := Json.mkObj [("err", gerrJ e)], holds := oerr.isSome }
   | .ok st =>
     let model := Json.mkObj [("err", Json.null), ("glyphs", glyphSetJ st.gs),
-      ("modified", strsJ (sortStr st.modified)), ("matrix", affineJ m)]
+      ("modified", strsJ (sortStr st.modified)), ("matrix", affineJ m),
+      ("bounds", listJ (fun e => Json.arr #[compJ e.1,
+          match lineBounds gs e.1 with
+          | some r => optJ (pairJ ratJ ratJ) r
+          | none => Json.str "curve"]) table)]
     match oerr with
     | some _ => return { model, holds := false }
     | none =>
@@ -44,6 +63,7 @@ def filter (req : Json) : R Reply := do
             let sm ← asList asStr (← field obs "secondModified")
             let ss ← asBool (← field obs "secondSame")
             pure (propagateWrong gs after ++ propagateMissing marks incl gs after ++
+                  promotionWrong bnd marks incl gs after ++
                   (if sm.isEmpty && ss then [] else ["<second application changed something>"]))
         | _ => pure (renderChanged gs after ++
             (if fname == "flatten" && !holdsFlatDepth after incl then ["<nested component left>"] else [])))
